@@ -10,4 +10,8 @@
                     txkeys.broadcaster_delayed_payment_key, txkeys.revocation_key), 0, *redeemscript, htlc_amount_sat, ty)   //[C09.htlc-tx.sighash-of-rebuilt]
             &&& sh@ == sighash_p2wsh(*tx, 0, *redeemscript, htlc_amount_sat, ty)                                           //[C09.htlc-tx.equals-supplied]
             &&& htlc.amount_msat == htlc_amount_sat * 1000 && htlc.transaction_output_index == Some(tx.input@[0].previous_output.vout)
+            // the script the signature commits to IS an HTLC script of this channel type, and the transaction is rebuilt for
+            // that kind of HTLC (offered: HTLC-timeout, received: HTLC-success)
+            &&& (if spec_is_offered_htlc(*redeemscript, setup_is_anchors(*setup)) { htlc.offered }
+                 else { spec_received_htlc_cltv(*redeemscript, setup_is_anchors(*setup)).is_some() && !htlc.offered })       //[C09.htlc-tx.script-is-an-htlc-script]
         }),
